@@ -2,6 +2,7 @@
 import os
 import re
 
+import corpus
 import progflow
 from vlib import Infra, read_ndjson, write_ndjson
 
@@ -41,6 +42,10 @@ def run(ctx):
     shapes = ctx.tlc_family("FamC16", constants={"Tier": '"quick"'})
     cases += [c for c in shapes if "/builtin/" not in c["id"]]
     cases += progflow.generate(ctx, "all", 60 if quick else 1500, extra=("-small",))
+    # the repository's own test programs: their stated expectations calibrate the cmd.exe model
+    repo = corpus.cases(ctx, ("C01", "C02", "C03"))
+    expects = {c["id"]: c["testExpects"] for c in repo if c.get("testExpects") is not None}
+    cases += repo
     # (1)+(3): Bash run and reference run with W = 32
     res = progflow.validate(ctx, cases, "ref", width=32)
     keep = []
@@ -88,6 +93,8 @@ def run(ctx):
             agree_bash += 1
         if len(ctx.samples) < 4 and len(c["src"]) < 250 and ctx.traces_validated % 41 == 1:
             ctx.samples.append({"id": c["id"], "source": c["src"], "reference_stdout": v["out"], "cmd_model_stdout": r["out"], "bash_stdout": c["obs"]["out"]})
+        if c["id"] in expects and r["st"] == "exit" and r["out"].strip() == expects[c["id"]].strip() and r["ok"]:
+            ctx.notes["cmd_model_calibrated_on_repo_tests"] = ctx.notes.get("cmd_model_calibrated_on_repo_tests", 0) + 1
         if not r["ok"]:
             from vlib import first_diff
             s = "under cmd.exe's rules the Batch script ends with status %s (%s): stdout %s; status expected %d observed %s" % (
